@@ -1,6 +1,6 @@
 CLAIM = ("-lzs-/-lz5-/stored: each decoder's read function, started from an ARBITRARY ring content and write position "
          "(so the step covers every history), decodes K consecutive commands of symbolic bits exactly as the format "
-         "definition says, including self-overlapping copies and ring wrap-around; init states equal the specified fill.")
+         "definition says, including self-overlapping copies and ring wrap-around; init states equal the specified fill. The copy kernels are additionally decided on the window scaled to 32 bytes by the LHASA_VERIF hook (same ring arithmetic) against the sequential definition of an LZ77 copy, at concrete write positions with start, length and contents arbitrary - seam crossing and self-overlap in every combination, robust to bulk-copy rewrites of the kernel.")
 ASSUMPTIONS = ["input callback contract: returns <= requested bytes, 0 only at end of data"]
 HARNESSES = [
     dict(name="lzs.step", src="C03/lzs.c", unwind=18, unwindset={"cb_read.0": 5, "peek_bits.0": 5, "peek_bits.1": 5, "ref_bits.0": 12},
